@@ -142,6 +142,38 @@ private:
                 const auto us = static_cast<uint64_t>(s);
                 if (spec.mk != 0 && mix(m_seed, f, us, 0xFFFF) % static_cast<uint64_t>(spec.mk) == 0)
                 {
+                    // the value stays missing; for every other missing cell a loader's REJECTED write is made first (label out of
+                    // range, wrong number of hits / components, text that is not a number): it throws, stores nothing, and the cell
+                    // must still be reported missing (seeded change C08-f3: mask bit set before the value is validated)
+                    if (mix(m_seed, f, us, 0xFFFE) % 2 == 0)
+                    {
+                        try
+                        {
+                            if (spec.type == 10)
+                            {
+                                set(s, ifeat, static_cast<tensor_size_t>(spec.a));
+                            }
+                            else if (spec.type == 11)
+                            {
+                                tensor_mem_t<tensor_size_t, 1> hits(spec.a + 1);
+                                hits.zero();
+                                set(s, ifeat, hits);
+                            }
+                            else if (spec.components() == 1)
+                            {
+                                set(s, ifeat, std::string("not-a-number"));
+                            }
+                            else
+                            {
+                                tensor_mem_t<tensor_size_t, 3> values(make_dims(spec.a + 1, spec.b, spec.c));
+                                values.zero();
+                                set(s, ifeat, values);
+                            }
+                        }
+                        catch (const std::exception&)
+                        {
+                        }
+                    }
                     continue;
                 }
                 if (spec.type == 10)
